@@ -10,6 +10,7 @@ use p3_field::{BasedVectorSpace, ExtensionField, Field, PrimeCharacteristicRing,
 use p3_lookup::logup::LogUpGadget;
 use p3_uni_stark::{StarkGenericConfig, Val};
 
+use super::batch_stark::observe_opened_values_circuit;
 use super::{ObservableCommitment, VerificationError, recompose_quotient_from_chunks_circuit};
 use crate::Target;
 use crate::challenger::CircuitChallenger;
@@ -430,9 +431,26 @@ where
         permutation_next_targets: vec![],
     };
 
-    // Observe opened values before getting PCS challenges.
-    // For single-STARK with one instance, the standard observation order is correct.
-    opened_values_no_lookups.observe(circuit, &mut challenger);
+    // Observe opened values before getting PCS challenges, round by round (random, trace,
+    // quotient chunks, preprocessed) like the native PCS verifier does.
+    // For `HidingFriPcs`, the native verifier appends the FRI-level random opened values carried
+    // by the opening proof to the values of every opened point before observing them, so they
+    // must be interleaved here as well to keep the Fiat-Shamir transcript in sync (for
+    // `TwoAdicFriPcs` there are none).
+    let fri_random_rounds = SC::Pcs::get_fri_random_opened_values(&proof_targets.opening_proof);
+    let num_quotient_chunks = proof_targets
+        .opened_values_targets
+        .quotient_chunks_targets
+        .len();
+    observe_opened_values_circuit::<SC, CP, WIDTH, RATE>(
+        circuit,
+        &mut challenger,
+        core::slice::from_ref(&opened_values_no_lookups),
+        &[num_quotient_chunks],
+        fri_random_rounds,
+        preprocessed_width > 0,
+        false,
+    );
 
     // Get PCS-specific challenges (FRI betas, query indices, etc.)
     let pcs_challenges = SC::Pcs::get_challenges_circuit::<WIDTH, RATE, CP>(
